@@ -75,6 +75,23 @@ Theorem C19_rand_parents_are_first_admissible_draws :
 Proof. intros T. exact (select_rand_first_hit (T := T)). Qed.
 Print Assumptions C19_rand_parents_are_first_admissible_draws.
 
+(* the same for the variants that fix the best individual and for 'ranked' (which only reorders the drawn parents afterwards) *)
+Theorem C19_best_parents_are_first_admissible_draws :
+  forall (T : Type) n_pop n_select n_parents ranks (s : list (event T)) P s',
+    select (T := T) SBest n_pop n_select n_parents ranks s = Ok (P, s') ->
+    exists segs, length segs = (n_parents - 1)%nat /\ cols_hit (seq 0 n_select) (repeat [0%nat] n_select) segs P /\
+      s = concat (map (col_events n_pop n_select) segs) ++ s'.
+Proof. intros T. exact (select_best_first_hit (T := T)). Qed.
+Print Assumptions C19_best_parents_are_first_admissible_draws.
+
+Theorem C19_ranked_parents_are_first_admissible_draws :
+  forall (T : Type) n_pop n_select n_parents ranks (s : list (event T)) P s',
+    select (T := T) SRanked n_pop n_select n_parents ranks s = Ok (P, s') ->
+    exists P0 segs, P = map (rank_sort_row (fun i => nth i (ranks_from ranks) 0%nat)) P0 /\ length segs = n_parents /\
+      cols_hit (seq 0 n_select) (repeat [] n_select) segs P0 /\ s = concat (map (col_events n_pop n_select) segs) ++ s'.
+Proof. intros T. exact (select_ranked_first_hit (T := T)). Qed.
+Print Assumptions C19_ranked_parents_are_first_admissible_draws.
+
 (* non-vacuity: 4 individuals, 2 rows; row 0 first draws its own target (0) and is redrawn once, row 1 is accepted at once *)
 Example C19_first_hit_nonvacuous :
   fill_cols (T := Q) 1 4 [[]; []] [0; 1]%nat [EChoice 4 2 [0; 2]%nat; EChoice 4 1 [3]%nat] = Ok ([[3]; [2]]%nat, []) /\
